@@ -1,4 +1,499 @@
-def write_cases(quick=True):
+"""Single-field corruptions of valid objects (C06) and valid documents (C07), driven by Validation.tla.
+
+The rule table lives in the spec; this module owns (a) the measurement of node instances on the
+real sample objects, (b) the class token -> concrete value tables, (c) how a slot is reached in an
+object (public attributes) and in a document (independent JSON / INI / line editing - never the
+library's own reader or writer)."""
+import configparser
+import io
+import json
+import os
+
+from . import core, samples
+
+# ----------------------------------------------------------------- node instances (measured)
+
+
+def nodes(fmt, obj):
+    """-> list of (kinds, label, python object)."""
+    out = []
+    if fmt == "composeinfo":
+        out.append((["compose"] + (["compose+label"] if obj.compose.label else []), "compose", obj.compose))
+        out.append((["ci.release"], "release", obj.release))
+        if obj.release.is_layered:
+            out.append((["ci.base_product"], "base_product", obj.base_product))
+
+        def walk(cont, child):
+            for k in sorted(cont.variants):
+                v = cont.variants[k]
+                out.append((["ci.variant"] + (["ci.childvariant"] if child else []), v.uid, v))
+                if v.type == "layered-product":
+                    out.append((["ci.vrelease"], v.uid, v.release))
+                walk(v, True)
+        walk(obj.variants, False)
+    elif fmt in ("images", "rpms", "modules", "extra_files"):
+        out.append((["compose"] + (["compose+label"] if obj.compose.label else []), "compose", obj.compose))
+        if fmt == "images":
+            seen = set()
+            for v in sorted(obj.images):
+                for a in sorted(obj.images[v]):
+                    for img in sorted(obj.images[v][a], key=lambda i: i.path):
+                        if id(img) in seen:
+                            continue
+                        seen.add(id(img))
+                        out.append((["img.image"] + ([] if img.unified else ["img.plainimage"]), "%s|%s|%s" % (v, a, img.path), img))
+    elif fmt == "treeinfo":
+        out.append((["ti.release"], "release", obj.release))
+        if obj.release.is_layered:
+            out.append((["ti.base_product"], "base_product", obj.base_product))
+        out.append((["ti.tree"], "tree", obj.tree))
+
+        def walk(cont, child):
+            for k in sorted(cont.variants):
+                v = cont.variants[k]
+                out.append((["ti.variant"] + (["ti.childvariant"] if child else []), v.uid, v))
+                walk(v, True)
+        walk(obj.variants, False)
+        if obj.images.images:
+            out.append((["ti.images"], "images", obj.images))
+        if obj.stage2.mainimage or obj.stage2.instimage:
+            out.append((["ti.stage2"], "stage2", obj.stage2))
+        if obj.media.discnum or obj.media.totaldiscs:
+            out.append((["ti.media"], "media", obj.media))
+        if obj.checksums.checksums:
+            out.append((["ti.checksums"], "checksums", obj.checksums))
+    elif fmt == "discinfo":
+        out.append((["di.discinfo"], "discinfo", obj))
+    return out
+
+
+def measured_nodes():
+    table = {}
+    for fmt in samples.FORMATS:
+        for shape in range(samples.NSHAPES[fmt]):
+            table["%s_%d" % (fmt, shape)] = [{"kinds": set(k), "label": l} for k, l, _ in nodes(fmt, samples.build(fmt, shape))]
+    return table
+
+
+# ----------------------------------------------------------------- class tokens -> values
+
+OBJ = {"none": None, "int": 5, "empty": "", "float": 1.5, "strnum": "7", "str": "yes", "zero": 0, "list": [], "emptydict": {},
+       "emptylist": [], "emptyset": set(), "tuple": ("a",), "unknown": "bogus-value", "date7": "2015052", "date9": "201505222",
+       "date_dashed": "2015-05-22", "nodate": "Fedora-22", "label_ga": "GA", "label_noversion": "RC", "label_onepart": "RC-1",
+       "label_unknown": "Gamma-1.0", "label_threepart": "RC-1.0.0", "label_lower": "rc-1.0", "trailingdot": "1.", "doubledot": "1..2",
+       "alnum": "1a", "dash": "a-b", "space": "a b", "md5_short": "abc123", "md5_upper": "A" * 32, "md5_31": "a" * 31,
+       "layered": "layered-product"}
+DOC = dict(OBJ)
+DOC.update({"emptyset": [], "int_date": 20150522})
+INI = {"trailingdot": "1.", "alnum": "1a", "str": "maybe", "empty": "", "zero": "0", "dash": "a-b", "unknown": "bogus-value",
+       "layered": "layered-product"}
+
+
+def corrupt_object(fmt, obj, node_index, field, cls):
+    kinds, label, node = nodes(fmt, obj)[node_index - 1]
+    if cls == "upper":
+        setattr(node, field, getattr(node, field).upper())
+    elif cls == "misaligned":
+        node.uid = node.uid + "x"
+    elif cls == "foreign":
+        node.arches = set(node.arches) | set(["s390x"])
+    elif cls == "nonempty":
+        node.additional_variants = ["Client"]
+    elif field == "image_paths":
+        plat = sorted(node.images)[0]
+        name = sorted(node.images[plat])[0]
+        node.images[plat][name] = "/abs/boot.iso"
+    elif field == "platforms" and cls == "unreferenced":
+        node.images["bogusplat"] = {"kernel": "images/vmlinuz"}
+    elif cls == "absolute" and field in ("mainimage", "instimage"):
+        setattr(node, field, "/abs/install.img")
+    elif cls == "absolute" and field == "paths":
+        node.checksums["/abs/file"] = ["sha256", "0" * 64]
+    elif cls == "onlyone":
+        node.totaldiscs = None
+    else:
+        setattr(node, field, OBJ[cls] if not isinstance(OBJ[cls], (list, dict, set)) else type(OBJ[cls])(OBJ[cls]))
+
+
+# ----------------------------------------------------------------- independent document editing
+
+class Ini(object):
+    """Case-preserving, interpolation-free INI reader/writer independent of productmd's parser."""
+
+    def __init__(self, text):
+        self.p = configparser.RawConfigParser()
+        self.p.optionxform = str
+        self.p.read_string(text)
+
+    def text(self):
+        out = io.StringIO()
+        self.p.write(out)
+        return out.getvalue()
+
+
+def _find_variant_section(ini, uid):
+    for s in ("variant-" + uid, "addon-" + uid):
+        if ini.p.has_section(s):
+            return s
+    raise KeyError(uid)
+
+
+def corrupt_document(fmt, text, obj, case):
+    """Apply the slot corruption of `case` to the document text.  Returns new text or None (not expressible)."""
+    kind, field, cls, label = case["kind"], case["field"], case["cls"], case["label"]
+    if fmt == "discinfo":
+        lines = text.split("\n")
+        idx = {"timestamp": 0, "description": 1, "arch": 2, "disc_numbers": 3}[field]
+        val = {"zero": "0", "str": "abc", "empty": ""}.get(cls)
+        if field == "disc_numbers" and cls == "str":
+            val = "a,b"
+        if val is None:
+            return None
+        lines[idx] = val
+        return "\n".join(lines)
+    if fmt == "treeinfo":
+        ini = Ini(text)
+        if kind in ("ti.variant", "ti.childvariant"):
+            sec = _find_variant_section(ini, label)
+            if cls == "misaligned":
+                # keep the UID (it names the section) and break the id it must end with
+                ini.p.set(sec, "id", ini.p.get(sec, "id") + "x")
+            else:
+                ini.p.set(sec, field, INI[cls])
+        elif kind == "ti.images":
+            if field == "image_paths":
+                sec = [s for s in ini.p.sections() if s.startswith("images-")][0]
+                ini.p.set(sec, ini.p.options(sec)[0], "/abs/boot.iso")
+            else:
+                ini.p.add_section("images-bogusplat")
+                ini.p.set("images-bogusplat", "kernel", "images/vmlinuz")
+        elif kind == "ti.stage2":
+            ini.p.set("stage2", field, "/abs/install.img")
+        elif kind == "ti.media":
+            ini.p.set("media", field, "abc")
+        elif kind == "ti.checksums" and cls.startswith("doc:bare"):
+            # a bare digest whose length is none of 32/40/64; "_first": sorts before every other entry
+            ini.p.set("checksums", "zzz/file" if not cls.endswith("_first") else "!first", "0" * 48)
+        elif kind == "ti.checksums":
+            ini.p.set("checksums", "/abs/file", "sha256:" + "0" * 64)
+        else:
+            sec = {"ti.release": "release", "ti.base_product": "base_product", "ti.tree": "tree"}[kind]
+            v = INI[cls]
+            if field == "build_timestamp" and cls == "str":
+                v = "abc"
+            ini.p.set(sec, field, v)
+        return ini.text()
+    doc = json.loads(text)
+    pay = doc["payload"]
+    if kind in ("compose", "compose+label"):
+        node = pay["compose"]
+    elif kind == "ci.release":
+        node = pay["release"]
+    elif kind == "ci.base_product":
+        node = pay["base_product"]
+    elif kind in ("ci.variant", "ci.childvariant"):
+        node = pay["variants"][label]
+    elif kind == "ci.vrelease":
+        node = pay["variants"][label]["release"]
+    elif kind in ("img.image", "img.plainimage"):
+        v, a, path = label.split("|")
+        hits = [d for vv in pay["images"] for aa in pay["images"][vv] for d in pay["images"][vv][aa] if d["path"] == path]
+        if not hits:
+            raise core.MachineryError("image %s not found in document" % label)
+        node = None
+        nodes_ = hits
+    else:
+        raise core.MachineryError("no document location for kind %s" % kind)
+    targets = nodes_ if kind in ("img.image", "img.plainimage") else [node]
+    for n in targets:
+        if cls == "upper":
+            n[field] = n[field].upper()
+        elif cls == "misaligned":
+            n["uid"] = n["uid"] + "x"
+        elif cls == "foreign":
+            n["arches"] = sorted(set(n["arches"]) | set(["s390x"]))
+        elif cls == "nonempty":
+            n["additional_variants"] = ["Client"]
+        elif cls == "int" and field == "date":
+            n[field] = 20150522
+        else:
+            n[field] = DOC[cls]
+    return json.dumps(doc)
+
+
+# ----------------------------------------------------------------- evaluators
+
+def _sample(case):
+    fmt, shape = case["sample"].rsplit("_", 1)
+    return fmt, samples.build(fmt, int(shape))
+
+
+def eval_write(case):
+    """C06: one corrupted slot => dumps() and dump(file) raise TypeError/ValueError and return no text."""
+    if case["cls"].startswith("doc:"):
+        return []
+    fmt, obj = _sample(case)
+    corrupt_object(fmt, obj, case["node"], case["field"], case["cls"])
+    what = "%s %s[%s].%s := <%s>" % (case["sample"], case["kind"], case["label"], case["field"], case["cls"])
+    try:
+        text = obj.dumps()
+    except (TypeError, ValueError):
+        return []
+    except Exception as exc:
+        return ["%s: dumps() raised %s (%s) instead of TypeError/ValueError" % (what, type(exc).__name__, exc)]
+    return ["%s: dumps() returned %d characters of text for an object that breaks a documented constraint" % (what, len(text))]
+
+
+def eval_valid(case):
+    """C06 converse: an object whose fields all satisfy their rules is written."""
+    fmt, shape = case["sample"].rsplit("_", 1)
+    try:
+        obj = samples.build(fmt, int(shape)) if "variant" not in case else build_enum(case)
+        text = obj.dumps()
+        if not text.strip():
+            return ["%s: valid object written as empty text" % (case,)]
+    except Exception as exc:
+        return ["valid object %s refused: %s: %s" % (json.dumps(case, sort_keys=True), type(exc).__name__, exc)]
     return []
-def eval_dump_path(c, disk0, tmp):
+
+
+def build_enum(case):
+    """Valid objects using one documented enumeration value each."""
+    fmt = case["sample"].rsplit("_", 1)[0]
+    k, v = case["variant"]
+    if fmt == "composeinfo":
+        ci = samples.composeinfo(1)
+        if k == "compose_type":
+            samples.set_compose(ci.compose, label="RC-1.0", final=True, ctype=v)
+        elif k == "release_type":
+            ci.release.type = v
+        elif k == "bp_type":
+            ci.base_product.type = v
+        elif k == "label":
+            ci.compose.label = "%s-3.14" % v
+        elif k == "variant_type":
+            ci["Server-HA"].type = v
+            if v == "layered-product":
+                r = ci["Server-HA"].release
+                r.name, r.short, r.version, r.type = "Sat", "SAT", "6", "ga"
+        elif k == "arch":
+            for uid in ("Server", "Server-HA"):
+                var = ci[uid]
+                var.arches.add(v)
+                var.paths.os_tree[v] = "x/%s/os" % v
+        return ci
+    if fmt == "images":
+        m = samples.images(0)
+        img = sorted(m.images["Server"]["x86_64"], key=lambda i: i.path)[0]
+        if k == "image_type":
+            img.type = v
+        elif k == "image_format":
+            img.format = v
+        elif k == "arch":
+            from productmd.images import Images
+            m2 = Images()
+            samples.set_compose(m2.compose)
+            m2.add("Server", v, img)
+            return m2
+        return m
+    if fmt == "treeinfo":
+        t = samples.treeinfo(1)
+        if k == "variant_type":
+            t["Server"]["HA"].type = v
+        elif k == "arch":
+            t.tree.arch = v
+            t.tree.platforms = set([v, "xen", "x86_64"])
+        return t
+    raise KeyError(fmt)
+
+
+def enum_cases():
+    import productmd.common as C
+    import productmd.composeinfo as CI
+    import productmd.images as IM
+    import productmd.treeinfo as TI
+    out = []
+    for v in CI.COMPOSE_TYPES:
+        out.append({"sample": "composeinfo_1", "variant": ["compose_type", v]})
+    for v in C.RELEASE_TYPES:
+        out.append({"sample": "composeinfo_1", "variant": ["release_type", v]})
+        out.append({"sample": "composeinfo_1", "variant": ["bp_type", v]})
+    for v in CI.LABEL_NAMES:
+        out.append({"sample": "composeinfo_1", "variant": ["label", v]})
+    for v in CI.VARIANT_TYPES:
+        out.append({"sample": "composeinfo_1", "variant": ["variant_type", v]})
+    for v in C.RPM_ARCHES:
+        out.append({"sample": "composeinfo_1", "variant": ["arch", v]})
+        if v not in ("src", "nosrc"):
+            out.append({"sample": "images_0", "variant": ["arch", v]})
+        out.append({"sample": "treeinfo_1", "variant": ["arch", v]})
+    for v in IM.SUPPORTED_IMAGE_TYPES:
+        out.append({"sample": "images_0", "variant": ["image_type", v]})
+    for v in IM.SUPPORTED_IMAGE_FORMATS:
+        out.append({"sample": "images_0", "variant": ["image_format", v]})
+    for v in TI.VARIANT_TYPES:
+        out.append({"sample": "treeinfo_1", "variant": ["variant_type", v]})
+    for fmt in samples.FORMATS:
+        for shape in range(samples.NSHAPES[fmt]):
+            out.append({"sample": "%s_%d" % (fmt, shape)})
+    return out
+
+
+def eval_load(case):
+    """C07: the same slot corrupted in the document => loads() raises; documented coercions may load a valid object."""
+    fmt, obj = _sample(case)
+    if case["load"] == "na":
+        return []
+    text = obj.dumps()
+    bad = corrupt_document(fmt, text, obj, case)
+    if bad is None:
+        return []
+    what = "%s document %s[%s].%s := <%s>" % (case["sample"], case["kind"], case["label"], case["field"], case["cls"])
+    if bad == text:
+        raise core.MachineryError("corruption left the document unchanged: " + what)
+    new = type(obj)()
+    try:
+        new.loads(bad)
+    except Exception:
+        return []
+    if case["load"] == "raises":
+        return ["%s: loads() returned an object instead of rejecting the document" % what]
+    try:
+        new.dumps()
+    except Exception as exc:
+        return ["%s: accepted by a documented coercion, but the loaded object then fails the write constraints: %s: %s"
+                % (what, type(exc).__name__, exc)]
+    return []
+
+
+def _del(d, key, what):
+    if key not in d:
+        raise core.MachineryError("cannot delete %s: not in document" % what)
+    del d[key]
+
+
+def eval_doc(case):
+    """C07 document-level corruptions: header type swap, mangled version, deleted required key/section."""
+    fmt, obj = _sample(case)
+    text = obj.dumps()
+    kind, arg = case["kind"], case["arg"]
+    what = "%s document: %s %s %s" % (case["sample"], kind, arg, case.get("ver", ""))
+    mang = {"nonnumeric": "abc", "onepart": "1", "threepart": "1.2.3", "empty": "", "null": None, "float": 1.2, "trailing_x": "1.x",
+            "negative": "-1.0"}
+    if fmt == "discinfo":
+        lines = text.split("\n")
+        bad = "\n".join(lines[:2]) if arg == "line3" else lines[0]
+    elif fmt == "treeinfo":
+        ini = Ini(text)
+        if kind == "swaptype":
+            ini.p.set("header", "type", arg)
+            ini.p.set("header", "version", case["ver"])
+        elif kind == "mangle":
+            if mang[arg] is None or isinstance(mang[arg], float):
+                return []
+            ini.p.set("header", "version", mang[arg])
+        else:
+            if arg == "variantsection":
+                sec = [s for s in ini.p.sections() if s.startswith("variant-")][0]
+                ini.p.remove_section(sec)
+            elif arg.startswith("variant/"):
+                sec = [s for s in ini.p.sections() if s.startswith("variant-")][0]
+                ini.p.remove_option(sec, arg.split("/")[1])
+            elif "/" in arg:
+                sec, opt = arg.split("/")
+                if not ini.p.has_section(sec):
+                    return []          # optional section absent in this shape (base_product, media)
+                ini.p.remove_option(sec, opt)
+            else:
+                if not ini.p.has_section(arg):
+                    return []
+                ini.p.remove_section(arg)
+        bad = ini.text()
+    else:
+        doc = json.loads(text)
+        if kind == "swaptype":
+            doc["header"]["type"] = arg
+            doc["header"]["version"] = case["ver"]
+        elif kind == "mangle":
+            doc["header"]["version"] = mang[arg]
+        else:
+            parts = arg.split("/")
+            if parts[0] == "variant":
+                uid = sorted(doc["payload"]["variants"])[0]
+                _del(doc["payload"]["variants"][uid], parts[1], arg)
+            elif parts[0] == "vrelease":
+                hits = [u for u, v in doc["payload"]["variants"].items() if "release" in v]
+                if not hits:
+                    return []
+                _del(doc["payload"]["variants"][hits[0]]["release"], parts[1], arg)
+            elif parts[0] == "image":
+                v = sorted(doc["payload"]["images"])[0]
+                a = sorted(doc["payload"]["images"][v])[0]
+                _del(doc["payload"]["images"][v][a][0], parts[1], arg)
+            else:
+                d = doc
+                for p in parts[:-1]:
+                    if p not in d:
+                        return []
+                    d = d[p]
+                if parts[-1] not in d:
+                    return []          # optional section absent in this shape (base_product)
+                del d[parts[-1]]
+        bad = json.dumps(doc)
+    new = type(obj)()
+    try:
+        new.loads(bad)
+    except Exception:
+        return []
+    return ["%s: loads() returned an object instead of rejecting the document" % what]
+
+
+# ----------------------------------------------------------------- C18: real invalid values through dump(path)
+
+def write_cases(quick=True):
+    """Slot corruptions for C18: subset of the C06 table, flagged nested when only a section writer detects them."""
+    out = []
+    table = measured_nodes()
+    picks = [("composeinfo_1", "compose", "date", "date7"), ("composeinfo_1", "ci.release", "version", "alnum"),
+             ("composeinfo_1", "ci.variant", "type", "unknown"), ("composeinfo_1", "ci.childvariant", "arches", "foreign"),
+             ("composeinfo_1", "ci.vrelease", "type", "unknown"), ("composeinfo_1", "ci.base_product", "version", "empty"),
+             ("images_1", "img.image", "size", "zero"), ("images_1", "img.image", "implant_md5", "md5_upper"),
+             ("images_1", "compose", "respin", "float"), ("rpms_0", "compose", "type", "unknown"),
+             ("modules_0", "compose", "id", "nodate"), ("extra_files_1", "compose", "date", "none"),
+             ("treeinfo_1", "ti.tree", "arch", "empty"), ("treeinfo_1", "ti.variant", "type", "unknown"),
+             ("treeinfo_1", "ti.images", "image_paths", "absolute"), ("treeinfo_1", "ti.media", "discnum", "str"),
+             ("treeinfo_1", "ti.stage2", "mainimage", "absolute"), ("treeinfo_2", "ti.base_product", "version", "alnum"),
+             ("discinfo_0", "di.discinfo", "arch", "empty")]
+    for sample, kind, field, cls in picks:
+        for i, n in enumerate(table[sample]):
+            if kind in n["kinds"]:
+                out.append({"sample": sample, "node": i + 1, "label": n["label"], "kind": kind, "field": field, "cls": cls,
+                            "nested": not sample.startswith("discinfo")})
+    return out
+
+
+def eval_dump_path(case, disk0, tmp):
+    fmt, obj = _sample(case)
+    good = obj.dumps()
+    corrupt_object(fmt, obj, case["node"], case["field"], case["cls"])
+    path = os.path.join(tmp, "real_" + case["sample"])
+    if os.path.exists(path):
+        os.unlink(path)
+    old = good + "\n# previous good copy\n"
+    if disk0 == "Old":
+        with open(path, "w") as fh:
+            fh.write(old)
+    what = "%s %s[%s].%s := <%s>" % (case["sample"], case["kind"], case["label"], case["field"], case["cls"])
+    try:
+        obj.dump(path)
+        return ["%s: dump(path) wrote an invalid object" % what]
+    except (TypeError, ValueError):
+        pass
+    except Exception as exc:
+        return ["%s: dump(path) raised %s" % (what, type(exc).__name__)]
+    now = open(path).read() if os.path.exists(path) else None
+    if disk0 == "Old" and now != old:
+        return ["%s: rejected dump %s the previous file" % (what, "deleted" if now is None else "replaced (now %d bytes)" % len(now))]
+    if disk0 == "Absent" and now is not None:
+        return ["%s: rejected dump left a new %d-byte file behind" % (what, len(now))]
     return []
